@@ -605,3 +605,43 @@ func scenarioTimeoutsUpToCutoff(n int, h specqbft.Height) []caseOut {
 	}
 	return a.outs([]string{"case/directed", fmt.Sprintf("directed/timeouts-up-to-the-cut-off-n%d", n)})
 }
+
+// scenarioRepeatedPrepareJustification (seeded change C06b-m3; regression for the justification quorum sites): n=4, operator 2
+// Byzantine (leader of round 2). Everybody prepares (1,A), the commits are lost, the correct operators time out with genuine
+// prepared round-changes. The leader re-proposes A with those round-changes and a PrepareJustification of quorum LENGTH from
+// quorum-1 DISTINCT signers. Refused on the unchanged tree (…/prepNoQuorum); no agreement violation either way (each prepared
+// round-change carries its own distinct-signer quorum), but the operators' traces differ from the model when it is accepted.
+func scenarioRepeatedPrepareJustification() []caseOut {
+	env := getEnv(4)
+	a := newDirected(env, 0, []spectypes.OperatorID{2}, false)
+	A := valueBytes(1)
+	rA := sha256.Sum256(A)
+	a.startAll([][]byte{A, A, A, A})
+	correct := []*SimNode{a.node(1), a.node(3), a.node(4)}
+	for _, nd := range correct {
+		a.deliverWhere(nd, isT(specqbft.ProposalMsgType, 1))
+	}
+	for _, nd := range correct {
+		a.deliverWhere(nd, isT(specqbft.PrepareMsgType, 1))
+	}
+	for _, nd := range correct {
+		a.distribute()
+		a.pending[nd.id] = nil // the commits are lost
+		a.timeoutOn(nd)
+	}
+	rcs := wireRCs(a, 2, 1, 3, 4)
+	p1, p3 := a.f.prepare(1, 1, rA), a.f.prepare(3, 1, rA)
+	for _, w := range a.wire { // the genuine prepares
+		if w.Msg != nil && isT(specqbft.PrepareMsgType, 1)(w.Msg) && w.Msg.Message.Root == rA {
+			if w.Msg.Signers[0] == 1 {
+				p1 = w.Msg
+			} else if w.Msg.Signers[0] == 3 {
+				p3 = w.Msg
+			}
+		}
+	}
+	a.sendDirect(enc(a.f.proposal(2, 2, A, rcs, []*specqbft.SignedMessage{p1, cloneMsg(p1), p3})), correct)
+	a.pushDecision(2, A, correct)
+	a.exchange(correct, 2, rA)
+	return a.outs([]string{"case/directed", "directed/prepare-justification-quorum-length-fewer-distinct-signers"})
+}
